@@ -46,6 +46,21 @@ let lin_result (data : string) : string =
   Buffer.add_string b "}";
   Buffer.contents b
 
+(* users -> category / part by the model of calculateLinearizationData; users: p<n> t<n> r<hexkey> k<hexkey> R *)
+let user_of (s : string) : ouser =
+  let rest = String.sub s 1 (String.length s - 1) in
+  match s.[0] with
+  | 'p' -> OuPage (n_of_int (int_of_string rest))
+  | 't' -> OuThumb (n_of_int (int_of_string rest))
+  | 'r' -> OuRootKey (unhexbytes rest)
+  | 'k' -> OuTrailerKey (unhexbytes rest)
+  | _ -> OuRoot
+
+let cat_name (c : lcat) : string = match c with
+  | LcRoot -> "root" | LcOutlines -> "outlines" | LcOpenDocument -> "open_document" | LcFirstPagePrivate -> "first_page_private"
+  | LcFirstPageShared -> "first_page_shared" | LcOtherPagePrivate -> "other_page_private" | LcOtherPageShared -> "other_page_shared"
+  | LcThumbPrivate -> "thumbnail_private" | LcThumbShared -> "thumbnail_shared" | LcOther -> "other"
+
 (* "v:b,v:b,f,..." -> operations *)
 let ops_of (s : string) : bitop list =
   if s = "-" then [] else
@@ -57,6 +72,17 @@ let ops_of (s : string) : bitop list =
 let () =
   register "linf" (fun args -> match args with
     | [path] -> lin_result (H_file.read_file path)
+    | _ -> "?args");
+  register "linparts" (fun args -> match args with
+    | [path] -> (match lin_parts_tie (bytes_of_string (H_file.read_file path)) with
+        | Some (diffs, n) -> Printf.sprintf "%d %s" (ni n) (String.concat "," (List.map (fun ((o, m), p) -> Printf.sprintf "%d:%d:%d" (ni o) (ni m) (ni p)) diffs))
+        | None -> "none")
+    | _ -> "?args");
+  register "classify" (fun args -> match args with
+    | [uo; us] ->
+      let users = if us = "-" then [] else List.map user_of (String.split_on_char ',' us) in
+      let c = lc_classify users in
+      Printf.sprintf "%s %d" (cat_name c) (ni (lc_part (uo = "1") c))
     | _ -> "?args");
   register "lin" (fun args -> match args with
     | [h] -> lin_result (unhex h)
